@@ -336,6 +336,39 @@ def c17(res):
                       "in the real engine; Trace_C17 recomputes the denotation and compares structurally; a case = one script")
 
 
+def validate_histories(module, trace, wd, starts, piece=400000, timeout=6000):
+    """T for a stateful trace specification whose state is replaced at the lines `starts` recognises: the trace is cut
+    in front of such lines into pieces of about `piece` lines, each validated by its own TLC run (four at a time)."""
+    import concurrent.futures
+    nlines = sum(1 for _ in open(trace))
+    if nlines <= piece:
+        return validate(module, trace, wd, timeout=timeout, parallel=0)
+    pieces, cur = [], []
+    for ln in open(trace):
+        if len(cur) >= piece and starts(ln):
+            pieces.append(cur)
+            cur = []
+        cur.append(ln)
+    pieces.append(cur)
+    jobs = []
+    for k, part in enumerate(pieces):
+        d = os.path.join(wd, "hist%d" % k)
+        os.makedirs(d, exist_ok=True)
+        pth = os.path.join(d, "trace.ndjson")
+        with open(pth, "w") as f:
+            f.writelines(part)
+        jobs.append((d, pth))
+    rejects = {}
+    t0 = time.time()
+    with concurrent.futures.ThreadPoolExecutor(max_workers=4) as ex:
+        for _, r in ex.map(lambda j: validate(module, j[1], j[0], timeout=timeout, parallel=0, heap="4g"), jobs):
+            rejects.update(r)
+    for d, _ in jobs:
+        shutil.rmtree(d, ignore_errors=True)
+    log("T %s: %d lines validated in %d pieces cut at history starts, %d rejected, %.0fs" % (module, nlines, len(jobs), len(rejects), time.time() - t0))
+    return nlines, rejects
+
+
 def c18(res):
     wd = workdir("C18")
     q = res.tier == "quick"
@@ -346,7 +379,10 @@ def c18(res):
     trace = os.path.join(wd, "trace.ndjson")
     if not run_recorder(res, "c18", [hists, res.tier, trace], wd, timeout=3000):
         return res.finish("recorder crashed")
-    n, rej = validate("Trace_C18", trace, wd, timeout=6000, parallel=0)      # stateful: never cut into pieces
+    # Trace_C18 is stateful within a history (the model is replayed next to the recording); a history starts with a
+    # `size` event, which replaces the whole state, so a long trace may be cut in front of such lines (the thorough tier
+    # records ten million events: one TLC run cannot even load them)
+    n, rej = validate_histories("Trace_C18", trace, wd, lambda ln: '"event":["size"' in ln, piece=400000, timeout=6000)
     res.validated = n - len(rej)
     res.evaluations = n
     res.samples = sample_lines(trace, maxlen=3000)
